@@ -82,7 +82,7 @@ def gen_case(ctx):
     nodes = sorted({nd for o in ops for nd in o["nodes"]})
     hist = []
     added, deleted, assembled, merged = [], set(), False, False
-    backported_moves = moved_since_assembly = False
+    backported_moves = moved_since_assembly = late_add = False
     first = list(range(n)) if propagate else rng.sample(range(n), rng.randint(1, n))
     rng.shuffle(first)
     for i in first:
@@ -105,12 +105,17 @@ def gen_case(ctx):
                 choices += ["merge_patches", "merge_patches"]
             choices += ["assemble", "assemble"]
         else:
-            choices += ["move", "move", "backport", "backport", "clear", "clear"]
+            choices += ["backport", "backport", "clear", "clear"] + ([] if late_add else ["move", "move"])
+            # an operation added to an assembled mesh joins it with the next (re-)assembly; (only while no vertex has been
+            # moved: an operation added later holds the original corner positions, see above)
+            if len(added) < n and not backported_moves and not moved_since_assembly and not propagate:
+                choices += ["add"]
         c = rng.choice(choices)
         if c == "add":
             i = rng.choice([i for i in range(n) if i not in added])
             added.append(i)
             hist.append(["add", i])
+            late_add = late_add or assembled  # (no vertex moves from here on: the late operation keeps its own corner positions)
         elif c == "delete":
             i = rng.choice(live)
             deleted.add(i)
